@@ -174,6 +174,8 @@ class FnVerifier(Verifier):
             elif n in self._loop_var_kinds:
                 st.env[n] = fresh(self._loop_var_kinds[n], n)
         flds, alloc = self.written_heap(body)
+        if getattr(self, '_maps_stable', False):
+            flds = flds - {'$mhasS', '$mvalS', '$mhasR', '$mvalR'}      # declared: the body changes no dict
         frame = self._loop_frame
         framed = None
         if frame is not None and flds & {'$len', '$elR', '$elS'}:
@@ -256,6 +258,13 @@ class FnVerifier(Verifier):
         outs = []
         self._loop_var_kinds = dict(sp.get('vars', {}))
         self._loop_frame = sp.get('lists_modified')
+        self._maps_stable = bool(sp.get('maps_stable'))
+        # locals that are first assigned inside the loop and named by the invariants: an arbitrary value of the declared
+        # kind before the loop (that they are assigned before they are read is not modelled for these -- the invariants
+        # that guard their use, e.g. "contstr != '' implies endprog is not None", are what is proved)
+        for n_, k_ in self._loop_var_kinds.items():
+            if n_ not in st.env:
+                st.env[n_] = fresh(k_, n_)
         self.check_invs(st, k, sp, 'init')
         h = st
         self.havoc_loop(h, body, extra_names)
